@@ -62,7 +62,19 @@ namespace occa {
     }
 
     void leftUnaryOpNode::print(printer &pout) const {
-      pout << op << *value;
+      pout << op;
+      // Keep [- -x], [+ +x], [& &x], [- --x] apart: without the space
+      // the two operators are read back as one (--x, ++x, &&x)
+      if (value->type() & exprNodeType::leftUnary) {
+        const std::string &innerStr = ((const leftUnaryOpNode*) value)->op.str;
+        const char last = op.str[op.str.size() - 1];
+        if (innerStr.size()
+            && (innerStr[0] == last)
+            && ((last == '+') || (last == '-') || (last == '&'))) {
+          pout << ' ';
+        }
+      }
+      pout << *value;
     }
 
     void leftUnaryOpNode::debugPrint(const std::string &prefix) const {
